@@ -268,10 +268,11 @@ pub async fn read_http_request<const BUF_SIZE: usize>(
             }
         }
     }
-    let content_length = if let Some(s) = head.headers.get_only("content-length") {
-        Some(s.parse().map_err(|_| HttpError::InvalidContentLength)?)
-    } else {
-        None
+    // A repeated content-length header makes the message framing ambiguous.  Reject it.
+    let content_length = match head.headers.get_all("content-length").as_slice() {
+        [] => None,
+        [s] => Some(s.parse().map_err(|_| HttpError::InvalidContentLength)?),
+        _ => return Err(HttpError::InvalidContentLength),
     };
     #[allow(clippy::match_same_arms)]
     // https://datatracker.ietf.org/doc/html/rfc7230#section-3.3
